@@ -525,6 +525,17 @@ func (g *gen) families(a *Args, rng *Rng, emit func(*hcase), deferCase func(mk f
 			})
 		}
 	}
+
+	// H. sizes: the verdict of a part must not depend on its size or on the size of the
+	// other part (small ~0.2 kB, medium ~0.5 kB, big ~5 kB; fresh / expired / zero)
+	k = 0
+	for _, p := range [][2]string{{"F1", "EMD1"}, {"F1", "EBD1"}, {"M1", "ED1"}, {"M1", "EMD1"}, {"B1", "EBD1"}, {"B1", "EMD1"},
+		{"EM1", ""}, {"EM1", "FD1"}, {"EM1", "MD1"}, {"EB1", ""}, {"EB1", "FD1"}, {"EB1", "BD1"}, {"E1", "BD1"}, {"E1", "MD1"},
+		{"ZB1", ""}, {"ZB1", "FD1"}, {"M1", ""}, {"M1", "MD1"}, {"F1", "MD1"}, {"M1", "FD1"}} {
+		u := g.near[(k*3)%len(g.near)]
+		k++
+		emit(&hcase{Family: "sizes", Ops: []*hop{g.set(u, p[0], p[1]), get(u), on(1, get(u)), g.set(u, "F1", ""), get(u)}})
+	}
 }
 
 // ---------- accounting ----------
